@@ -151,6 +151,14 @@ def translate(repo):
         raise TranslateError("Thread.h begin(): the flag is written through `st` but the reference is not taken before run() and released after the flag: %r" % st)
     asm = asm_fenced(repo)
     B = lambda x: "true" if x else "false"
+    # join(): waits on the thread handle, unconditionally; ThreadGroup::join joins every member, unconditionally
+    tj = body_of(txt, r"void\s+join\s*\(\s*\)\s*\{")
+    gi = txt.rfind("class ThreadGroup")
+    gj = body_of(txt[gi:], r"void\s+join\s*\(\s*\)\s*\{") if gi >= 0 else None
+    if tj is None or gj is None:
+        raise TranslateError("Thread.h: Thread::join / ThreadGroup::join not found")
+    thread_ok = "pthread_join(_thread" in tj and "finished" not in tj and not re.search(r"\bif\s*\(", tj) and "return" not in tj
+    group_ok = re.fullmatch(r"\s*foreach\s*\(\s*Thread\s*&\s*t\s*,\s*_threads\s*\)\s*t\.join\s*\(\s*\)\s*;\s*", gj) is not None
     out = "/- GENERATED by tools/props/c13.py from include/asl/Thread.h (statement order in begin / beginf / beginfN) and from the\n"
     out += "   assembly g++ -O3 produces for the two trampolines with the hooks off — do not edit -/\nnamespace Gen.Thread\n\n"
     out += "/-- a barrier stands between the copy of the creator's context and `ready = true` (source text) -/\n"
@@ -159,7 +167,9 @@ def translate(repo):
     out += "def fencedAtO3 : List (String × Bool) := [(\"beginf\", %s), (\"beginfN\", %s)]\n\n" % (B(asm["beginf"]), B(asm["beginfN"]))
     out += "/-- `Thread::begin`: `t->ended()` comes before `finished = true` -/\ndef endedFirst : Bool := %s\n\n" % B(i_end < i_flag)
     out += "/-- `Thread::begin` takes its own reference on the shared state before `run()`, writes the flag through it and releases it last -/\n"
-    out += "def holdsState : Bool := %s\n\nend Gen.Thread\n" % B(holds)
+    out += "def holdsState : Bool := %s\n\n" % B(holds)
+    out += "/-- does a `join()` look at anything but the thread itself? (`Thread::join` is an unconditional `pthread_join`, `ThreadGroup::join`\n    joins every member unconditionally: false) -/\n"
+    out += "def joinUsesFlag : Bool := %s\n\nend Gen.Thread\n" % B(not (thread_ok and group_ok))
     return {"Gen/ThreadGen.lean": out}
 
 
